@@ -6,6 +6,7 @@ import Lmd.Print
 import Lmd.Frame
 import Lmd.Sync
 import Lmd.Cluster
+import Lmd.Distributed
 
 open Lean (Json)
 open Lmd
@@ -185,15 +186,23 @@ structure DataOut where
   total : Nat
   failed : List (String × String)
 
-def evalData (st : State) (t : Table) (m : EvalMode) (q : Quirks) (text : String) (optimize : Bool) (isSpec : Bool := false) (specDots : Bool := false) : Option (Request × DataOut × List Json) :=
+/-- does a cluster node distribute this request? (`BuildResponse`: not when it names backends and all of them are its own) -/
+def distributes (t : Table) (req : Request) (ours : List String) : Bool :=
+  -- the tables and columns tables describe the schema: every node answers them itself
+  t.name != "tables" && t.name != "columns" && (req.backends.isEmpty || !(req.backends.all ours.contains))
+
+def evalData (st : State) (t : Table) (m : EvalMode) (q : Quirks) (text : String) (optimize : Bool) (isSpec : Bool := false) (specDots : Bool := false)
+    (dist : Option (List (List String) × List String) := none) : Option (Request × DataOut × List Json) :=
   match parseRequest st.schema { optimize := optimize, q := q, specDots := isSpec && specDots } text with
   | .error _ => none
   | .ok req =>
-    let res := dataQuery m st.schema st.ds t req
+    let res := match dist with
+      | some (shares, ours) => if distributes t req ours then distData m st.schema st.ds t req shares else dataQuery m st.schema st.ds t req
+      | none => dataQuery m st.schema st.ds t req
     let cols := requestColumns t req
     let dirs := req.sort.map (·.desc)
     let nBackends := (selectBackends st.ds t req).peers.length
-    let exact := nBackends ≤ 1 && !isSpec
+    let exact := nBackends ≤ 1 && !isSpec && dist.isNone
     let rowsJ := res.hits.map (hitJson st.schema st.ds t cols)
     let poolJ := res.pool.map (fun h => (hitJson st.schema st.ds t cols h).compress)
     let classes := classify dirs (!req.sort.isEmpty) exact res.pool 0 none
@@ -275,7 +284,7 @@ def longRegex (st : State) (text : String) : Bool :=
     (leaves.any (fun l => l.rx.isSome) && st.ds.backends.any fun b => b.tables.any fun (_, rows) => rows.any fun r => r.cells.any fun (_, v) => valTooLong v)
   | .error _ => false
 
-def handleQuery (st : State) (j : Json) : Json :=
+def handleQuery (st : State) (j : Json) (dist : Option (List (List String) × List String) := none) : Json :=
   let id := jNat j "id"
   let text := jStr j "text"
   let optimize := jBool j "optimize"
@@ -302,18 +311,18 @@ def handleQuery (st : State) (j : Json) : Json :=
         Json.mkObj (base ++ [("parse", .str "ok"), ("kind", .str "error502")])
       else if req.stats.isEmpty then
         -- data query
-        match evalData st t (EvalMode.code Quirks.current) Quirks.current text optimize,
+        match evalData st t (EvalMode.code Quirks.current) Quirks.current text optimize false false dist,
               evalData st t EvalMode.spec Quirks.none text false true optimize with
         | some (_, model, modelRows), some (_, spec, _) =>
           let agrees := dataAgrees req model spec
           -- attribution: which listed quirks, switched off alone, change the model's answer?
           let hit := if agrees then [] else quirkList.filterMap fun (name, off) =>
             let q' := off Quirks.current
-            match evalData st t (EvalMode.code q') q' text optimize with
+            match evalData st t (EvalMode.code q') q' text optimize false false dist with
             | some (_, m', _) => if m'.window != model.window || m'.total != model.total then some name else none
             | none => some name
           let explained := if agrees then true else
-            match evalData st t (EvalMode.code Quirks.none) Quirks.none text optimize with
+            match evalData st t (EvalMode.code Quirks.none) Quirks.none text optimize false false dist with
             | some (req', m', _) => dataAgrees req' m' spec
             | none => false
           Json.mkObj (base ++ [("parse", .str "ok"), ("kind", .str "data"),
@@ -332,7 +341,11 @@ def handleQuery (st : State) (j : Json) : Json :=
       else
         -- stats query
         let mode (q : Quirks) : StatsMode := { q := q, useIndex := true, pushDown := true, grouped := optimize }
-        let model := statsQuery (mode Quirks.current) st.schema st.ds t req
+        let model := match dist with
+          | some (shares, ours) =>
+            if distributes t req ours then distStats (mode Quirks.current) st.schema st.ds t req shares
+            else statsQuery (mode Quirks.current) st.schema st.ds t req
+          | none => statsQuery (mode Quirks.current) st.schema st.ds t req
         if model.crash then Json.mkObj (base ++ [("parse", .str "ok"), ("kind", .str "crash")])
         else
           match parseRequest st.schema { optimize := false, q := Quirks.none, specDots := optimize } text with
